@@ -229,29 +229,35 @@ class FFT:
 
     @staticmethod
     def rfftn(a, s=None, axes=None, norm=None):
-        assert norm in (None, "backward")
         a = obj(a)
         if axes is None:
             axes = tuple(range(a.ndim)) if s is None else tuple(range(a.ndim - len(s), a.ndim))
         axes = tuple(axes)
         s = tuple(s) if s is not None else (None,) * len(axes)
         out = FFT.rfft(a, s[-1], axes[-1])
+        tot = a.shape[axes[-1]] if s[-1] is None else int(s[-1])
         for ax, n in zip(axes[:-1], s[:-1]):
             out = dft_axis(out, ax, False, n)
-        return out
+            tot *= out.shape[ax]
+        sc = _norm_scale(norm, tot, False)
+        return out if sc is None else (out * sc).view(SA)
 
     @staticmethod
     def irfftn(a, s=None, axes=None, norm=None):
-        assert norm in (None, "backward")
         a = obj(a)
         if axes is None:
             axes = tuple(range(a.ndim)) if s is None else tuple(range(a.ndim - len(s), a.ndim))
         axes = tuple(axes)
         s = tuple(s) if s is not None else (None,) * len(axes)
         out = a
+        tot = 1
         for ax, n in zip(axes[:-1], s[:-1]):
             out = dft_axis(out, ax, True, n)
-        return FFT.irfft(out, s[-1], axes[-1])
+            tot *= out.shape[ax]
+        res = FFT.irfft(out, s[-1], axes[-1])
+        tot *= res.shape[axes[-1]]
+        sc = _norm_scale(norm, tot, True)
+        return res if sc is None else (res * sc).view(SA)
 
     @staticmethod
     def next_fast_len(target, real=False):
@@ -265,17 +271,18 @@ class FFT:
 
     @staticmethod
     def rfft(a, n=None, axis=-1, norm=None):
-        assert norm in (None, "backward")
         full = dft_axis(a, axis, False, n)
         N = full.shape[axis]
         sl = [slice(None)] * full.ndim
         sl[axis] = slice(0, N // 2 + 1)
-        return full[tuple(sl)]
+        out = full[tuple(sl)]
+        sc = _norm_scale(norm, N, False)
+        return out if sc is None else (out * sc).view(SA)
 
     @staticmethod
     def irfft(a, n=None, axis=-1, norm=None):
         """C2R: Hermitian extension of the half spectrum, real part (imag of DC/Nyquist dropped)"""
-        assert norm in (None, "backward")
+        _norm_arg = norm
         a = numpy.moveaxis(obj(a), axis, -1)
         m = a.shape[-1]
         N = 2 * (m - 1) if n is None else int(n)
@@ -297,19 +304,17 @@ class FFT:
             if N % 2 == 0 and N // 2 < min(need, m):
                 full[idx + (N // 2,)] = Sym.lift(a[idx + (N // 2,)]).real
         out = dft_axis(full, -1, True)
-        return numpy.moveaxis(out.real, -1, axis).view(SA)
+        res = numpy.moveaxis(out.real, -1, axis).view(SA)
+        sc = _norm_scale(_norm_arg, N, True)
+        return res if sc is None else (res * sc).view(SA)
 
     @staticmethod
     def rfft2(a, s=None, axes=(-2, -1), norm=None):
-        assert norm in (None, "backward")
-        s = s or (None, None)
-        return dft_axis(FFT.rfft(a, s[1], axes[1]), axes[0], False, s[0])
+        return FFT.rfftn(a, s, axes, norm)
 
     @staticmethod
     def irfft2(a, s=None, axes=(-2, -1), norm=None):
-        assert norm in (None, "backward")
-        s = s or (None, None)
-        return FFT.irfft(dft_axis(a, axes[0], True, s[0]), s[1], axes[1])
+        return FFT.irfftn(a, s, axes, norm)
 
     @staticmethod
     def fftfreq(n, d=1.0):
@@ -918,6 +923,25 @@ class _F32(numpy.float32):
         return Sym(numpy.float32(x))
 
 
+def _with_out(fn):
+    """element-wise proxy methods: write the result into out= when one is given (NumPy ufunc semantics)"""
+    import functools
+
+    @functools.wraps(fn)
+    def wrapper(self, *a, out=None, where=True, **kw):
+        if where is not True:
+            raise NotImplementedError("where= on a proxied element-wise function")
+        kw.pop("dtype", None)
+        kw.pop("casting", None)
+        r = fn(self, *a)
+        if out is None:
+            return r
+        tgt = out[0] if isinstance(out, tuple) else out
+        tgt[...] = r
+        return tgt
+    return wrapper
+
+
 class NP:
     """module-like proxy for numpy"""
 
@@ -1089,16 +1113,20 @@ class NP:
     float64 = None
 
     # ---- element-wise functions
-    def sqrt(self, x, out=None, **kw):
+    @_with_out
+    def sqrt(self, x):
         return _map(core.sym_sqrt, x)
 
-    def exp(self, x, out=None, **kw):
+    @_with_out
+    def exp(self, x):
         return _map(core.sym_exp, x)
 
-    def log10(self, x, out=None, **kw):
+    @_with_out
+    def log10(self, x):
         return _map(core.sym_log10, x)
 
-    def log(self, x, out=None, **kw):
+    @_with_out
+    def log(self, x):
         return _map(core.sym_log, x)
 
     def float_power(self, a, b):
@@ -1108,10 +1136,12 @@ class NP:
         a, b = obj(a), obj(b)
         return _map(core.sym_sqrt, a * a + b * b)
 
-    def cos(self, x, out=None, **kw):
+    @_with_out
+    def cos(self, x):
         return _map(lambda e: e.cos(), x)
 
-    def sin(self, x, out=None, **kw):
+    @_with_out
+    def sin(self, x):
         return _map(lambda e: e.sin(), x)
 
     def arctan2(self, y, x):
@@ -1126,18 +1156,22 @@ class NP:
             out[i] = Sym(math.atan2(float(a.re), float(b.re)))
         return out.view(SA) if out.ndim else out[()]
 
-    def abs(self, x, out=None, **kw):
+    @_with_out
+    def abs(self, x):
         return _map(abs, x)
     absolute = abs
 
-    def conjugate(self, x, out=None, **kw):
+    @_with_out
+    def conjugate(self, x):
         return _map(lambda e: e.conjugate(), x)
     conj = conjugate
 
-    def real(self, x, out=None, **kw):
+    @_with_out
+    def real(self, x):
         return _map(lambda e: e.real, x)
 
-    def imag(self, x, out=None, **kw):
+    @_with_out
+    def imag(self, x):
         return _map(lambda e: e.imag, x)
 
     def round(self, x, decimals=0):
@@ -1149,10 +1183,12 @@ class NP:
     around = round
     rint = round
 
-    def floor(self, x, out=None, **kw):
+    @_with_out
+    def floor(self, x):
         return _map(lambda e: e.floor(), x)
 
-    def ceil(self, x, out=None, **kw):
+    @_with_out
+    def ceil(self, x):
         return _map(lambda e: -((-e).floor()), x)
 
     def where(self, cond, *args):
@@ -1238,6 +1274,12 @@ class NP:
     def isfinite(self, x):
         return numpy.ones(numpy.shape(x), dtype=bool) if numpy.shape(x) else True
 
+    def finfo(self, dtype=None):
+        return numpy.finfo(core._dt(dtype) if dtype is not None else numpy.float64) if not isinstance(dtype, (Sym, numpy.ndarray)) else numpy.finfo(numpy.float64)
+
+    def iinfo(self, dtype):
+        return numpy.iinfo(core._dt(dtype))
+
     def isclose(self, a, b, rtol=1e-05, atol=1e-08, equal_nan=False):
         """|a - b| <= atol + rtol |b| element-wise (symbolic elements give symbolic truth values)"""
         x, y = numpy.broadcast_arrays(numpy.asarray(a, dtype=object), numpy.asarray(b, dtype=object))
@@ -1295,8 +1337,6 @@ class NP:
             return False
         return self.array_equal(x, y)
 
-    def less_equal(self, a, b):
-        return numpy.less_equal(a, b)
 
 
 def _as_sa(r):
